@@ -599,8 +599,11 @@ func (ex *Exec) globalVal(st *State, g *ssa.Global) Term {
 	}
 	et := g.Type().(*types.Pointer).Elem()
 	v := ex.freshOfType(st, "g_"+g.Name(), et)
+	if ex.w.initMode && g.Name() == "init$guard" && g.Pkg == ex.fn.Pkg {
+		v = tFalse // the initialiser's one real run
+	}
 	st.globals[key] = v
-	if cl := ex.w.globalInvs[shortName(g.String())]; cl != nil {
+	if cl := ex.w.globalInvs[shortName(g.String())]; cl != nil && !(ex.w.initMode && g.Pkg == ex.fn.Pkg) {
 		c := &SpecCtx{ex: ex, st: st, old: st, binds: map[string]TT{"self": {T: v, Ty: et}}, bound: map[string]string{}, clause: cl, pkg: g.Pkg.Pkg}
 		st.assume(ex.safeFormula(c, cl.Text))
 		ex.d.trust("global invariant of " + shortName(g.String()) + " (established by package initialisation, never written afterwards)")
